@@ -675,11 +675,11 @@ Proof. intros A all ctor set [v|] g H; cbn; [rewrite H|]; reflexivity. Qed.
 Lemma integer_of_show : forall i, integer_of_name (show_integer i) = Some i.
 Proof. destruct i; reflexivity. Qed.
 
-Lemma dsl_config_spec : forall lf c, dsl_config (config_to_dsl lf c) = ROk (spec_config lf c).
+Lemma dsl_config_gen : forall lf c all,
+  (forall k, Nat.ltb 1 (count_kind k all) = false) ->
+  foldM (dsl_config_step all) (config_to_dsl lf c) default_config = ROk (spec_config lf c).
 Proof.
-  intros lf c. unfold dsl_config.
-  pose proof (config_counts lf c) as H.
-  set (all := config_to_dsl lf c) in *. unfold config_to_dsl.
+  intros lf c all H. unfold config_to_dsl.
   assert (St : forall (i : hconfig_item) g r,
              match i with
              | GCDefaultRegisterAccess a => ROk (set_g_dra a g)
@@ -719,6 +719,9 @@ Proof.
   destruct a1, a2, a3, a4, a5, a6, a7, a8, a9 as [[?|?]|], a10; reflexivity.
 Qed.
 
+Lemma dsl_config_spec : forall lf c, dsl_config (config_to_dsl lf c) = ROk (spec_config lf c).
+Proof. intros lf c. unfold dsl_config. apply dsl_config_gen. apply config_counts. Qed.
+
 Theorem dsl_half : forall lf d,
   forallb object_ok (a_objects d) = true ->
   class_of (lower_dsl (to_dsl lf d)) = class_of (spec_device lf d).
@@ -730,3 +733,4 @@ Proof.
   rewrite Forall_forall. intros o Ho. apply dsl_object_spec.
   rewrite forallb_forall in Hok. apply Hok; assumption.
 Qed.
+
